@@ -24,6 +24,10 @@ class BodyError(Exception):
     """raised by the body of a with-block"""
 
 
+class TransportCloseError(Exception):
+    """what an injected failing transport.close() raises (stands for PtyProcessError 'Could not terminate the child.')"""
+
+
 class RigTrouble(Exception):
     """the rig itself misbehaved (=> exit 2, never 1)"""
 
@@ -265,6 +269,7 @@ class Rig:
         self.in_hook = False
         self.in_timeout = False
         self.on_close_raised = False
+        self.tclose_raised = False
         self.dead_seen = False
         self.tmpdir = tmpdir
         self.user_bio: Optional[io.BytesIO] = None
@@ -363,6 +368,9 @@ class Rig:
             self.t.opened = False
             self.t._wake.set()
 
+    def holds_session(self):
+        return bool(self.flags()["os"])
+
     def note_step_exception(self, exc):
         """a device-facing step ended with exc: once the transport itself reported the lost connection, later steps
         fail without the device's doing"""
@@ -435,6 +443,10 @@ class Rig:
                 rig.mark("tclose")
             elif not rig.in_timeout:
                 rig.net.trace.append(("stallfire",))     # a real timer fired
+            if rig.case.get("tclose_raises") and rig.holds_session():
+                # injected: the transport cannot close its session (PtyProcess.close(): "Could not terminate the child.")
+                rig.tclose_raised = True
+                raise TransportCloseError("could not terminate the child")
             return tclose()
 
         t.open, t.close = _topen, _tclose
@@ -714,7 +726,7 @@ def _result(rig, op, out, seg_start, fds0, thr0):
     fl["fd_delta"] = fd_count() - fds0
     fl["thr_delta"] = threading.active_count() - thr0
     return dict(op=op, out=out, marks=list(rig.marks), flags=fl, seg=list(rig.net.trace[seg_start:]),
-                on_close_raised=rig.on_close_raised, nreads=rig.net.nreads, nwrites=rig.net.nwrites)
+                on_close_raised=rig.on_close_raised, tclose_raised=rig.tclose_raised, nreads=rig.net.nreads, nwrites=rig.net.nwrites)
 
 
 def _operate_sync(rig, conn):
@@ -753,6 +765,7 @@ def run_case_sync(case, rig_factory=None):
             for spec in case["ops"]:
                 rig.marks = []
                 rig.on_close_raised = False
+                rig.tclose_raised = False
                 seg_start = len(rig.net.trace)
                 r0, w0 = rig.net.nreads, rig.net.nwrites
                 rig.arm(spec.get("fault"))
@@ -822,6 +835,7 @@ async def run_case_async(case, rig_factory=None):
             for spec in case["ops"]:
                 rig.marks = []
                 rig.on_close_raised = False
+                rig.tclose_raised = False
                 seg_start = len(rig.net.trace)
                 r0, w0 = rig.net.nreads, rig.net.nwrites
                 rig.arm(spec.get("fault"))
